@@ -25,4 +25,6 @@ def run(chk, tier):
                 chk.case((e["name"], "batch", hx(k), i))
     chk.run_family(["default", "cpuoff", "forcesoft", "compact", "softcompact"], ops)
     conf.require_models(chk, NAMES)
+    from . import fs32
+    fs32.run(chk, 24 if quick else 800)   # fixslice32.rs (the repository's file, via #[path]) normal + compact vs its model and vs the native types
     chk.assumptions.append("the ARMv8 backend is executed over software intrinsics written from the Arm ARM pseudo-code (harness/src/arm_sw.rs); the instruction semantics themselves cannot be checked against hardware here (DESIGN §4.4); fixslice32 is executed via #[path] inclusion")
